@@ -52,6 +52,7 @@ type Options struct {
 	FullTrace  bool
 	Dense      bool     // statement-granularity scheduling points in all instrumented code for this run
 	DenseFuncs []string // functions always included in a dense run
+	StarveRole string   // strategy "starve": the tasks whose role contains this text are the starved ones (default: one task by number)
 }
 
 type Result struct {
@@ -459,7 +460,7 @@ func (d *driver) pick(step int, cands []cand) cand {
 	case "starve":
 		var rest []cand
 		for _, c := range cands {
-			if c.task != nil && c.task.ID == d.victim {
+			if c.task != nil && ((d.opt.StarveRole == "" && c.task.ID == d.victim) || (d.opt.StarveRole != "" && strings.Contains(c.task.Role, d.opt.StarveRole))) {
 				continue
 			}
 			rest = append(rest, c)
